@@ -354,6 +354,8 @@ def _run_multi_env(ctx, case):
     from . import _env_workload as E
     rng = random.Random(case["seed"] + 3)
     for event, run, info in E.multi_env_episodes(ctx, case):
+        if event == "filter_changed":
+            continue    # answers cached for this state may still be the old filter's: judged from the next dispatch on
         trace = ["<env %s>" % event]
         for q in ("available_operations", "current_time", rng.choice(ZERO_ARG), rng.choice(ZERO_ARG)):
             check_query(ctx, run, None, q, rng, trace)
@@ -423,7 +425,30 @@ def _run_case(ctx, case):
                 ctx.violation("c05_query_mismatch",
                               {"query": "asked from inside an observer " + where, "wrong": bad,
                                "history": list(rr.history), "filter": run.filter_names})
+        quitter = None
+        if case["seed"] % 7 == 3:
+            # an observer subscribed BEFORE the unscheduled-operations observer leaves from inside one
+            # of its updates: the observers behind it still get that dispatch
+            from job_shop_lib.dispatching import DispatcherObserver
+
+            class Quitter(DispatcherObserver):
+                _is_singleton = False
+
+                def __init__(self, dispatcher, at):
+                    super().__init__(dispatcher)
+                    self.at, self.n = at, 0
+
+                def update(self, scheduled_operation):
+                    self.n += 1
+                    if self.n == self.at and self in self.dispatcher.subscribers:
+                        self.dispatcher.unsubscribe(self)
+
+                def reset(self):
+                    pass
+            quitter = Quitter(run.d, rng.randint(1, 3))
+            ctx.count("histories_with_an_observer_leaving_before_the_mirror")
         mirror = UnscheduledOperationsObserver(run.d) if mirror_after == 0 else None
+        detach_at = rng.randint(1, max(1, run.r.num_ops - 2)) if case["seed"] % 7 == 5 and mirror is not None else None
         if case["seed"] % 5 == 0 and mirror is not None:
             # built-in observers call the cached queries as well; their use must not disturb answers
             attach_observers(ctx, run)
@@ -477,7 +502,25 @@ def _run_case(ctx, case):
                 attach_at = None
                 attach_observers(ctx, run)
                 ctx.count("observers_attached_mid_history")
-            if mirror is None and len(run.r.history) >= mirror_after:
+            if quitter is not None and mirror is not None:
+                check_query(ctx, run, mirror, "mirror", rng, ["<an earlier observer may have left during this dispatch>"])
+            if detach_at is not None and len(run.r.history) == detach_at and mirror in run.d.subscribers:
+                # the observer is unsubscribed, the history goes on, later the dispatcher is asked for
+                # such an observer again: it answers with a subscribed, up-to-date one
+                run.d.unsubscribe(mirror)
+                mirror = None
+                ctx.count("mirror_unsubscribed_mid_history")
+            elif detach_at is not None and mirror is None and len(run.r.history) > detach_at and rng.random() < 0.6:
+                mirror = run.d.create_or_get_observer(UnscheduledOperationsObserver)
+                detach_at = None
+                ctx.count("mirror_obtained_again_after_unsubscription")
+                if not any(x is mirror for x in run.d.subscribers):
+                    ctx.violation("c05_query_mismatch",
+                                  {"query": "create_or_get_observer(UnscheduledOperationsObserver)",
+                                   "what": "returned an observer that is not subscribed",
+                                   "history": list(run.r.history)})
+                check_query(ctx, run, mirror, "mirror", rng, ["<obtained again after unsubscription>"])
+            if mirror is None and detach_at is None and len(run.r.history) >= mirror_after:
                 mirror = run.d.create_or_get_observer(UnscheduledOperationsObserver)
                 ctx.count("mirror_created_mid_history")
                 check_query(ctx, run, mirror, "mirror", rng, ["<created mid-history>"])
